@@ -4,6 +4,7 @@ C07 — Writer conformance (property sizes and section shapes of what py7zr's wr
 import SevenZ.Lemmas.FilesInfo
 import SevenZ.Lemmas.SpecProps
 import SevenZ.Lemmas.SpecFiles
+import SevenZ.Lemmas.SpecPack
 namespace SevenZ.C07
 open SevenZ SevenZ.Impl
 
@@ -72,6 +73,20 @@ example : (Spec.sFilesInfo ((writeFilesInfo true
     some ([{ name := some [100], emptyStream := true, mtime := some 5, attr := some 16 },
           { name := some [0x1F600, 46, 97], emptyStream := false, mtime := none, attr := some 32 }], [7, 7]) := by
   decide +kernel
+
+/-- Writer conformance of the PackInfo section: for any number of packed streams, any
+    position and sizes below 2^64 and any pattern of defined digests, what `PackInfo.write`
+    emits is accepted by the strict reader and decodes to the same position, sizes and digests
+    ("packed sizes ... CRCs describe the bytes" is then a statement about these values). -/
+theorem strict_reader_accepts_packinfo (p : PackInfo) (bytes rest : Bytes) (hw : writePackInfo p = some bytes)
+    (hpos : p.packpos < 2 ^ 64) (hn : p.numstreams < 2 ^ 64) (hv : ∀ v ∈ p.packsizes, v < 2 ^ 64)
+    (hd : p.digestdefined.foldl (· || ·) p.enableDigests = true → p.digestdefined.length = p.numstreams)
+    (hc : ∀ c ∈ p.crcs, c < 256 ^ 4) :
+    Spec.sPackInfo (bytes.drop 1 ++ rest) = .ok (expectedPack p, rest) :=
+  packinfo_strict_read p bytes rest hw hpos hn hv hd hc
+
+example : (writePackInfo { packpos := 0, numstreams := 2, packsizes := [300, 70000], digestdefined := [true, false], crcs := [7, 0], enableDigests := true }).isSome = true := by
+  decide
 
 /-- boolean vectors as written are read back by the strict reader (all-defined shortcut and
     bit field with zero padding), for every vector -/
